@@ -45,6 +45,10 @@ class Verifier(Interp):
             fn = node.func.id
             if fn == "implies" and len(node.args) == 2:
                 g = self.truth(self.ev(node.args[0]))
+                if z3.is_false(z3.simplify(g)):
+                    # guard concretely false: the consequent is not evaluated (it may not even be well defined,
+                    # e.g. an index into a shorter constant row); implies(False, X) is True
+                    return FImp(g, FG(z3.BoolVal(True)))
                 return FImp(g, self.formula(node.args[1]))
             if fn == "all" and len(node.args) == 1 and isinstance(node.args[0], ast.GeneratorExp):
                 return self.forall_formula(node.args[0])
